@@ -13,7 +13,7 @@
    on every run (they fail exactly on the known C03/C12 findings). *)
 From Coq Require Import Sorting.Permutation.
 From GJ Require Import Base Kernel KernelSpec KernelProofs IntersectsProofs Series SeriesSpec SeriesProofs
-  Ring RingSpec PipProofs PairProofs PairSpec Pairs Invariance AffinePairs Jordan Crossing Mirror MirrorY Symmetry LineSound LineComplete SymmetryLine.
+  Ring RingSpec PipProofs PairProofs PairSpec Pairs Invariance AffinePairs Jordan Crossing Mirror MirrorY Symmetry LineSound LineComplete SymmetryLine StartVertex SymmetrySeg.
 Open Scope Z_scope.
 
 (* translation by (dx,dy) and scaling by k > 0 (k = 2^j in the property) *)
@@ -154,6 +154,68 @@ Theorem C12_line_contains_line_transpose : forall ps qs,
   line_contains_line (Lr (map tr ps)) (Lr (map tr qs)) = line_contains_line (Lr ps) (Lr qs).
 Proof. exact line_contains_line_tr. Qed.
 
+(* the vertex a ring starts at and its winding direction do not matter (vertex list given without the
+   repeated closing point, all vertices distinct): point membership in rings and in polygons with
+   holes, and the Intersects answers of ring x segment / line string / ring *)
+Theorem C12_ring_membership_start_vertex : forall k vs p, NoDup vs -> (3 <= length vs)%nat ->
+  in_ringb (ring_edges (rot k vs)) p = in_ringb (ring_edges vs) p.
+Proof. exact in_ringb_start_vertex. Qed.
+Theorem C12_ring_membership_winding : forall vs p, NoDup vs -> (3 <= length vs)%nat ->
+  in_ringb (ring_edges (rev vs)) p = in_ringb (ring_edges vs) p.
+Proof. exact in_ringb_winding. Qed.
+Theorem C12_polygon_membership_start_vertex : forall k e hs p,
+  NoDup e -> (3 <= length e)%nat -> (forall h, In h hs -> NoDup h /\ (3 <= length h)%nat) ->
+  poly_contains_point (Pg (rot k e) (map (rot k) hs)) p = poly_contains_point (Pg e hs) p.
+Proof. exact poly_contains_point_start_vertex. Qed.
+Theorem C12_polygon_membership_winding : forall e hs p,
+  NoDup e -> (3 <= length e)%nat -> (forall h, In h hs -> NoDup h /\ (3 <= length h)%nat) ->
+  poly_contains_point (Pg (rev e) (map (@rev pt) hs)) p = poly_contains_point (Pg e hs) p.
+Proof. exact poly_contains_point_winding. Qed.
+Theorem C12_ring_ring_intersects_start_vertex : forall k ps qs, NoDup ps -> NoDup qs ->
+  ring_intersects_ring (RS {| closed := true; pts := rot k ps |}) (RS {| closed := true; pts := rot k qs |}) true =
+  ring_intersects_ring (RS {| closed := true; pts := ps |}) (RS {| closed := true; pts := qs |}) true.
+Proof. exact ring_intersects_ring_start_vertex. Qed.
+Theorem C12_ring_ring_intersects_winding : forall ps qs, NoDup ps -> NoDup qs ->
+  ring_intersects_ring (RS {| closed := true; pts := rev ps |}) (RS {| closed := true; pts := rev qs |}) true =
+  ring_intersects_ring (RS {| closed := true; pts := ps |}) (RS {| closed := true; pts := qs |}) true.
+Proof. exact ring_intersects_ring_winding. Qed.
+Theorem C12_ring_line_intersects_start_vertex : forall k ps qs, NoDup ps -> (3 <= length ps)%nat ->
+  ring_intersects_line (RS {| closed := true; pts := rot k ps |}) (RS {| closed := false; pts := qs |}) true =
+  ring_intersects_line (RS {| closed := true; pts := ps |}) (RS {| closed := false; pts := qs |}) true.
+Proof. exact ring_intersects_line_start_vertex. Qed.
+Theorem C12_ring_line_intersects_winding : forall ps qs, NoDup ps -> (3 <= length ps)%nat ->
+  ring_intersects_line (RS {| closed := true; pts := rev ps |}) (RS {| closed := false; pts := qs |}) true =
+  ring_intersects_line (RS {| closed := true; pts := ps |}) (RS {| closed := false; pts := qs |}) true.
+Proof. exact ring_intersects_line_winding. Qed.
+Example C12_reorder_hypotheses_hold_somewhere :
+  let vs := [(0,0);(8,0);(8,8);(4,4);(0,8)] in
+  NoDup vs /\ rot 2 vs = [(8,8);(4,4);(0,8);(0,0);(8,0)] /\
+  in_ringb (ring_edges (rot 2 vs)) (4,5) = false /\ in_ringb (ring_edges (rev vs)) (2,5) = true.
+Proof. exact reorder_example. Qed.
+
+(* segment x segment, line string x line string and line membership under the reflections and the transposition *)
+Theorem C12_segment_intersects_mirror_x : forall s o, intersects_segment (mirs s) (mirs o) = intersects_segment s o.
+Proof. exact intersects_segment_mx. Qed.
+Theorem C12_segment_intersects_mirror_y : forall s o, intersects_segment (mys s) (mys o) = intersects_segment s o.
+Proof. exact intersects_segment_my. Qed.
+Theorem C12_segment_intersects_transpose : forall s o, intersects_segment (trs s) (trs o) = intersects_segment s o.
+Proof. exact intersects_segment_tr. Qed.
+Theorem C12_line_intersects_line_mirror_x : forall ps qs,
+  line_intersects_line (Lr (map mir ps)) (Lr (map mir qs)) = line_intersects_line (Lr ps) (Lr qs).
+Proof. exact line_intersects_line_mx. Qed.
+Theorem C12_line_intersects_line_mirror_y : forall ps qs,
+  line_intersects_line (Lr (map my ps)) (Lr (map my qs)) = line_intersects_line (Lr ps) (Lr qs).
+Proof. exact line_intersects_line_my. Qed.
+Theorem C12_line_intersects_line_transpose : forall ps qs,
+  line_intersects_line (Lr (map tr ps)) (Lr (map tr qs)) = line_intersects_line (Lr ps) (Lr qs).
+Proof. exact line_intersects_line_tr. Qed.
+Theorem C12_line_membership_mirror_x : forall ps p, line_contains_point_r (Lr (map mir ps)) (mir p) = line_contains_point_r (Lr ps) p.
+Proof. exact line_contains_point_mx. Qed.
+Theorem C12_line_membership_mirror_y : forall ps p, line_contains_point_r (Lr (map my ps)) (my p) = line_contains_point_r (Lr ps) p.
+Proof. exact line_contains_point_my. Qed.
+Theorem C12_line_membership_transpose : forall ps p, line_contains_point_r (Lr (map tr ps)) (tr p) = line_contains_point_r (Lr ps) p.
+Proof. exact line_contains_point_tr. Qed.
+
 Print Assumptions C12_raycast_affine.
 Print Assumptions C12_crossing_parity.
 Print Assumptions C12_ring_membership_mirror_x.
@@ -170,3 +232,6 @@ Print Assumptions C12_membership_candidate_order.
 Print Assumptions C12_convex_start_vertex.
 Print Assumptions C12_line_contains_line_mirror_x.
 Print Assumptions C12_line_contains_line_transpose.
+Print Assumptions C12_polygon_membership_winding.
+Print Assumptions C12_ring_ring_intersects_start_vertex.
+Print Assumptions C12_line_intersects_line_transpose.
